@@ -276,18 +276,42 @@ Definition reg_filters (rk : kind) (rq : url) (d : decision) : bool :=
   (d_filter d || is_filter_applied (d_fhdr d) filterTypeArtifactType
               || is_filter_applied (d_fann d) filterTypeArtifactType).
 
+(* The continuation a registry writes into its next links.  CLast: the documented `last`
+   parameter (the key clients use for the start value).  CToken key salt: an opaque cursor
+   under another key, value salt ++ <name of the last item>; such a link carries no `last`. *)
+Inductive cursor := CLast | CToken (key salt : str).
+
+Definition ckey (cu : cursor) : str := match cu with CLast => k_last | CToken k _ => k end.
+Definition cenc (cu : cursor) (x : str) : str := match cu with CLast => x | CToken _ s => s ++ x end.
+Definition strip (p s : str) : str :=
+  if str_eqb (firstn (length p) s) p then skipn (length p) s else s.
+
+(* where a request continues: the registry's own cursor if present, else the client's `last` *)
+Definition cursor_read (cu : cursor) (q : query) : str :=
+  match cu with
+  | CLast => qget_s k_last q
+  | CToken k s => match qget k q with Some (VS v) => strip s v | _ => qget_s k_last q end
+  end.
+
+(* the URL a next link stands for: path p, the cursor after item x, the registry's extra
+   parameters, then the other parameters of the request *)
+Definition link_url (cu : cursor) (p : str) (d : decision) (rq : url) (x : str) : url :=
+  mkUrl p ((ckey cu, VS (cenc cu x)) :: d_extra d ++ qdel (ckey cu) (qdel k_last (u_query rq))).
+
 (* page, more?, query of the next link *)
-Definition reg_page (rk : kind) (L : list item) (cap : nat) (rq : url) (d : decision)
+Definition reg_page (rk : kind) (cu : cursor) (L : list item) (cap : nat) (rq : url) (d : decision)
   : list item * bool * query :=
-  let rest := after (qget_s k_last (u_query rq)) L in
+  let rest := after (cursor_read cu (u_query rq)) L in
   let m := page_len cap rq d in
   let page := firstn m rest in
   let more := (m <? length rest)%nat in
   let items := if reg_filters rk rq d then filter_referrers page (qget_s k_at (u_query rq)) else page in
-  (items, more, (k_last, VS (last_name page)) :: d_extra d ++ qdel k_last (u_query rq)).
+  (items, more, u_query (link_url cu [] d rq (last_name page))).
 
 Section Registry.
   Variable rk : kind.       (* which endpoint: only the referrers endpoint filters *)
+  Variable cu : cursor.
+  Variable npath : nat -> str -> str.   (* path of the next link for request i under path p *)
   Variable L : list item.
   Variable cap : nat.
   Variable ds : nat -> decision.
@@ -298,9 +322,9 @@ Section Registry.
 
   Definition reg_serve (i : nat) (rq : url) : response :=
     let d := ds i in
-    let '(items, more, lq) := reg_page rk L cap rq d in
+    let '(items, more, lq) := reg_page rk cu L cap rq d in
     mkResp 200 false mediaTypeImageIndex true (d_doc_len d) (d_doc_len d + d_pad d) items
-           (if more then [c_lt :: render i rq (mkUrl (u_path rq) lq) ++ c_gt :: trailer i] else [])
+           (if more then [c_lt :: render i rq (mkUrl (npath i (u_path rq)) lq) ++ c_gt :: trailer i] else [])
            (d_fhdr d) (d_fann d).
 End Registry.
 
